@@ -326,7 +326,8 @@ class Angle(object):
                     if "radians" in kwargs:
                         if kwargs["radians"]:
                             # Input value is in radians. Convert to degrees
-                            deg[0] = degrees(deg[0])
+                            self._deg = Angle.reduce_deg(degrees(deg[0]))
+                            return
                     self._deg = Angle.reduce_deg(deg[0])
                     return
                 elif len(deg) == 2:
